@@ -49,10 +49,22 @@ def distinct_keys(rng, n, strish=0.7):
 def value(rng, depth=2, maxlen=4):
     if depth <= 0 or rng.random() < 0.45:
         return scalar(rng)
+    if rng.random() < 0.12:
+        return twins(rng)
     if rng.random() < 0.5:
         return [value(rng, depth - 1, maxlen) for _ in range(rng.randint(0, maxlen))]
     ks = distinct_keys(rng, rng.randint(0, maxlen))
     return {k: value(rng, depth - 1, maxlen) for k in ks}
+
+
+def twins(rng):
+    """siblings that are == but of different type (True / 1 / 1.0, 0 / False / 0.0, 2 / 2.0), in random order"""
+    base = rng.choice([[1, True, 1.0], [0, False, 0.0], [2, 2.0], [True, 1], [0.0, 0], [1.0, True, 1, 3]])
+    out = list(base) + [scalar(rng) for _ in range(rng.randint(0, 2))]
+    rng.shuffle(out)
+    if rng.random() < 0.3:
+        return {k: v for k, v in zip(["a", "b", "c", "ab", "A", "1"], out)}
+    return out
 
 
 def document(rng, depth=3, maxlen=4, strish=0.7):
@@ -310,6 +322,13 @@ def part_recipe(rng, node=None, simple=0.5):
     if rk in ("list", "mol"):
         index = datum_arg(rng, INDEX_KINDS, idxs or [0, 1, 2])
     value = datum_arg(rng, VALUE_KINDS, [0, 1, "a", 2.5], p_none=0.6, p_prim=0.1)
+    kids = list(node.values()) if isinstance(node, dict) else (list(node) if isinstance(node, list) else [])
+    scal = [k for k in kids if isinstance(k, (int, float, str, bool)) or k is None]
+    if len(scal) >= 2 and rng.random() < 0.3:
+        # an or / xor of conditions each matching a different child, the one matching the LATER child first
+        i, j = sorted(rng.sample(range(len(scal)), 2))
+        mk = lambda v: ("leaf", {"datum": "value", "pre": "none", "fn": "equal_to", "actuals": [v], "akw": {}})  # noqa: E731
+        value = (rng.choice(["or", "or", "xor"]), mk(scal[j]), mk(scal[i]))
     cond = None
     if rng.random() < 0.25:
         ck = list(VALUE_KINDS)
